@@ -9,9 +9,9 @@ import (
 type PairResult struct {
 	Executions int64
 	Complete   int64
-	Accesses   int   // access points (instrumented package-level state) in the first execution
-	MaxPoints  int   // longest schedule
-	Capped     bool  // MaxExec reached: not exhaustive within the bound
+	Accesses   int    // access points (instrumented package-level state) in the first execution
+	MaxPoints  int    // longest schedule
+	Capped     bool   // MaxExec reached: not exhaustive within the bound
 	HardError  string // replay divergence (nondeterminism the scheduler does not own)
 	// first offending execution, if any
 	Bad     bool
